@@ -20,18 +20,18 @@ Proof.
     + destruct (run_cb (as_cb a line) false ms) as [st2 reps'] eqn:Er. intros [= -> <-]. destruct (IH false reps' Er) as [Hf _]. discriminate.
 Qed.
 
-Theorem gen_anonymize_as_numbers_refines rx_of cls saltv rh fuel (a : as_anonymizer) line l :
-  rx_of rh = Some (as_regex a) -> anonymize_as_line a line = Done l ->
-  gen_anonymize_as_numbers (sub_call rx_of) fuel (enc_as cls saltv rh a) (vstr line) = Normal (vstr l).
+Theorem gen_anonymize_as_numbers_refines_for pc cls saltv rh fuel (a : as_anonymizer) line l :
+  sub_contract pc rh (as_regex a) -> anonymize_as_line a line = Done l ->
+  gen_anonymize_as_numbers pc fuel (enc_as cls saltv rh a) (vstr line) = Normal (vstr l).
 Proof.
-  intros Hrx. unfold anonymize_as_line, sub_fn. destruct (nullable (as_regex a)); [discriminate|].
+  intros Hc. unfold anonymize_as_line, sub_fn. destruct (nullable (as_regex a)); [discriminate|].
   fold (as_cb a line). rewrite sub_loop_fold.
   set (ms := matches line (S (slen line)) (as_regex a) 0). destruct (run_cb (as_cb a line) true ms) as [st reps] eqn:Er.
   destruct st; [|discriminate]. intros [= <-].
   destruct (as_cb_all_found a line ms true reps Er) as [_ HF].
   unfold gen_anonymize_as_numbers, gen_AsNumberAnonymizer__get_as_number_pattern.
   assert (G1 : py_getattr (enc_as cls saltv rh a) "as_num_regex" = Normal rh) by reflexivity. rewrite G1.
-  cbn [PyLib.bind call unpack2]. rewrite (call_finditer rx_of rh (as_regex a) line Hrx). fold (slen line). fold ms. cbn [PyLib.bind py_iter].
+  cbn [PyLib.bind call unpack2]. rewrite (proj1 Hc line). fold (slen line). fold ms. cbn [PyLib.bind py_iter].
   match goal with |- context [py_for _ ?b _] => set (B := b) end.
   assert (Hloop : forall ms0 reps0 acc j, Forall2 (fun m rep => lget (as_map a) (substr line (fst (fst m)) (snd (fst m))) = Some rep) ms0 reps0 ->
             exists j', py_for (map (enc_match line rh) ms0) B (enc_as cls saltv rh a, vstr line, rh, j, VList acc)
@@ -41,7 +41,7 @@ Proof.
     - cbn [fst snd] in Hm. unfold B at 1. cbv beta iota. cbn [enc_match].
       replace (py_getitem (VTuple [VInt (Z.of_nat i); VInt (Z.of_nat j0); VTuple [rh; vstr line; VInt (Z.of_nat i); VInt (Z.of_nat j0)]]) (VInt 2))
         with (@Normal pyval (VTuple [rh; vstr line; VInt (Z.of_nat i); VInt (Z.of_nat j0)])) by reflexivity.
-      cbn [PyLib.bind]. rewrite call_group0. cbn [PyLib.bind]. unfold gen_AsNumberAnonymizer__anonymize.
+      cbn [PyLib.bind]. rewrite (proj2 Hc). cbn [PyLib.bind]. unfold gen_AsNumberAnonymizer__anonymize.
       assert (G2 : py_getattr (enc_as cls saltv rh a) "as_num_map" = Normal (vlook (as_map a))) by reflexivity. rewrite G2. cbn [PyLib.bind].
       rewrite (py_getitem_vlook _ _ _ Hm). cbn [PyLib.bind call unpack2 py_list_append].
       destruct (IH (acc ++ [vstr rep]) (VTuple [rh; vstr line; VInt (Z.of_nat i); VInt (Z.of_nat j0)])) as (j' & Ej). rewrite Ej. exists j'. now rewrite <- app_assoc. }
@@ -50,4 +50,9 @@ Proof.
   - reflexivity.
   - pose proof (run_cb_length (as_cb a line) ms true) as Hlen. rewrite Er in Hlen. exact Hlen.
 Qed.
+
+Theorem gen_anonymize_as_numbers_refines rx_of cls saltv rh fuel (a : as_anonymizer) line l :
+  rx_of rh = Some (as_regex a) -> anonymize_as_line a line = Done l ->
+  gen_anonymize_as_numbers (sub_call rx_of) fuel (enc_as cls saltv rh a) (vstr line) = Normal (vstr l).
+Proof. intro Hrx. apply gen_anonymize_as_numbers_refines_for. now apply sub_call_contract. Qed.
 
